@@ -41,11 +41,13 @@ func c07Gen(c *vfCtx, emit func(c07Case)) {
 			{name, []vfCall{ok("snap", "", "ids:\n[TestQ - 7]\nend"), ok("snap", "", "[TestQ/sub - 12]"), ok("yaml", "", "- [TestQ - 7]\n")}},
 			// values with format verbs, near-terminators and one larger than any line buffer
 			{name, []vfCall{ok("snap", "", "100% done %d %s"), ok("snap", "", "x\n--- \ny\n---\t"), ok("snap", "", c10Big)}},
+			// lines ending in CR LF (whether such a value replays is the documented limitation; Clean must not CHANGE whether it does) and one very long line
+			{name, []vfCall{ok("snap", "", "GET / HTTP/1.1\r\nHost: x\r\n\r\nbody"), ok("snap", "", "v2"), ok("snap", "", c10Long)}},
 		}
 	}
-	names := []string{"TestA", "TestA/s", "TestAB", "FuzzA/seed#0", "Test1", "TestA/c_01"}
+	names := []string{"TestA", "TestA/s", "TestAB", "FuzzA/seed#0", "Test1", "TestA/c_01", "TestA/c_1"}
 	if c.thorough() {
-		names = append(names, "TestB", "TestA/s#01", "TestA/c_1", "BenchmarkX")
+		names = append(names, "TestB", "TestA/s#01", "BenchmarkX", "TestA/c_001")
 	}
 	counts := []int{1, 2, 3}
 	for ni, n1 := range names {
@@ -207,6 +209,9 @@ func c07Run(c *vfCtx, cs c07Case) {
 				want = "failed"
 			}
 		}
+		if strings.Contains(co.Call.Val, "\r") {
+			continue // documented limitation: whether a value with CR at the end of a line replays is not modelled; step 3 compares before/after Clean
+		}
 		if co.Got != want {
 			c.violation(class, fmt.Sprintf("call %d (%s %q in %s) signalled %s, expected %s: %s", i+1, co.Call.API, co.Call.Val, co.Test, co.Got, want, vfClip(co.ErrText)), cs)
 			return
@@ -264,7 +269,9 @@ func c07Run(c *vfCtx, cs c07Case) {
 				c.violation(class, fmt.Sprintf("entry [%s] of %s was addressed in this run and is gone after Clean (summary: %v)", id, f, o.summary.ObsTests), cs)
 				return
 			}
-			if n != 1 || *qb != *pb {
+			// a CR before a line feed is not part of the replayed value (documented limitation): compared without it here, step 3 decides
+			nocr := func(s string) string { return strings.TrimSuffix(strings.ReplaceAll(s, "\r\n", "\n"), "\r") }
+			if n != 1 || nocr(*qb) != nocr(*pb) {
 				c.violation(class, fmt.Sprintf("entry [%s] of %s was addressed in this run; after Clean it occurs %d times with text %q (was %q)", id, f, n, vfClip(*qb), vfClip(*pb)), cs)
 				return
 			}
